@@ -113,6 +113,24 @@ def gen_train_scipy(rng, method, nd, via):
             'orders': orders}
 
 
+def gen_splinehist(rng, method, via):
+    c = gen_spline(rng, method, 'interp')
+    m = max(2, len(c['x_interp']))
+    steps = []
+    for _ in range(rng.choice([2, 3])):
+        if method == 'bsplines':
+            steps.append(sorted(set(Fr(rng.randrange(0, 65), 64) for _ in range(m + 3)))[:m])
+            while len(steps[-1]) < m:
+                steps[-1] = sorted(set(steps[-1]) | {Fr(rng.randrange(0, 65), 64)})[:m]
+            if steps[-1][0] == steps[-1][-1]:
+                steps[-1][-1] = steps[-1][0] + Fr(1, 64)
+        else:
+            g = [fj(x) for x in c['x_cp']]
+            steps.append(sorted(interior(rng, g) for _ in range(m)))
+    return {'kind': 'splinehist', 'method': method, 'via': via, 'v': c['v'], 'x_cp': c.get('x_cp'),
+            'xs': [[pj(x) for x in st] for st in steps], 'cmp': 'tol'}
+
+
 def gen_spline(rng, method, via):
     n = rng.randrange(max(4, KMIN.get(method, 4)), 9)
     c = {'kind': 'spline', 'method': method, 'via': via, 'a': pj(rng.choice([Fr(2), Fr(-1), Fr(1, 2), Fr(3)])),
@@ -147,7 +165,8 @@ class C16(Spec):
             'of the returned values, akima also with the smoothing option delta_x > 0 on 2-D/3-D tables, also as histories (same object queried outside the table first, then one call per point); value gradients: training_gradients / MetaModelStructuredComp(training_data_'
             'gradients) for slinear, lagrange2, lagrange3, cubic and the scipy_slinear/cubic/quintic wrappers (2-D/3-D grids with 2-7 '
             'points per dimension, so that the reduced spline orders differ between dimensions) with tables v, w, a*v+w; evaluate_spline and '
-            'SplineComp (2-3 splines with different control points on one component) for slinear, lagrange2, lagrange3, '
+            'spline histories on one InterpND / SplineComp (x_interp replaced by another array of the same length between '
+            'derivative requests); SplineComp (2-3 splines with different control points on one component) for slinear, lagrange2, lagrange3, '
             'cubic, akima, bsplines; the public gradient() API in call sequences on one object (interpolate then gradient, '
             'fresh gradient, gradient at a point within 4e-6 relative of the cached one, in-place mutation of the query '
             'array, mixed sequences); every case distinct')
@@ -180,6 +199,9 @@ class C16(Spec):
         for k in range(120 if tier == 'quick' else 1200):
             method = ['scipy_cubic', 'scipy_quintic', 'scipy_slinear', 'scipy_cubic', 'scipy_quintic'][k % 5]
             cases.append(gen_train_scipy(rng, method, rng.choice([2, 2, 3]), 'comp' if rng.random() < 0.15 else 'interp'))
+        hm = ['slinear', 'lagrange2', 'lagrange3', 'cubic', 'akima', 'scipy_cubic', 'scipy_slinear', 'scipy_quintic']
+        for k in range(96 if tier == 'quick' else 960):
+            cases.append(gen_splinehist(rng, hm[k % len(hm)], 'comp' if k % 3 == 2 else 'interp'))
         sm = ['slinear', 'lagrange2', 'lagrange3', 'cubic', 'akima', 'bsplines', 'bsplines']
         for k in range(n3):
             cases.append(gen_spline(rng, sm[k % len(sm)], 'comp' if rng.random() < 0.3 else 'interp'))
